@@ -156,6 +156,39 @@ pub fn run(op: &str, rd: &mut Rd) -> Option<R> {
             let f = |x: f64| ((c3 * x + c2) * x + c1) * x + c0;
             Ok(e(common::solve_itp(f, a, b, eps, n0, k1, f(a), f(b))))
         })(),
+        // curve queries
+        "seg.extrema" => (|| -> R { let s = rd.seg()?; Ok(e_list(&s.extrema())) })(),
+        "seg.bbox" => (|| -> R { let s = rd.seg()?; Ok(e_rect(ParamCurveExtrema::bounding_box(&s))) })(),
+        "path.bbox" => (|| -> R { let p = rd.els()?; Ok(e_rect(p.as_slice().bounding_box())) })(),
+        "path.cbox" => (|| -> R { let p = rd.els()?; Ok(e_rect(BezPath::from_vec(p).control_box())) })(),
+        "seg.winding" => (|| -> R {
+            // a single segment closed back by nothing: use the path [M start, seg]: winding of an open path = sum over its segments
+            let s = rd.seg()?; let p = rd.pt()?;
+            let path = BezPath::from_path_segments([s].into_iter());
+            Ok(format!("{}", path.winding(p)))
+        })(),
+        "path.winding" => (|| -> R {
+            let q = rd.pt()?; let p = rd.els()?;
+            let w = p.as_slice().winding(q);
+            Ok(format!("{} {}", w, e_bool(Shape::contains(&p.as_slice(), q))))
+        })(),
+        "path.winding_meta" => (|| -> R {
+            let a = rd.affine()?; let q = rd.pt()?; let p = rd.els()?;
+            let bp = BezPath::from_vec(p);
+            let rev = bp.reverse_subpaths();
+            let tr = a * bp.clone();
+            let raised = BezPath::from_path_segments(bp.segments().map(|s| PathSeg::Cubic(s.to_cubic())));
+            // split every segment at t = 0.375; the pieces keep the stored end points of the original (subsegment(t..1.0)
+            // recomputes the end point of a line with one rounding, which would open 1-ulp gaps in the closed path)
+            let split = BezPath::from_path_segments(bp.segments().flat_map(|s| {
+                let a = s.subsegment(0.0..0.375);
+                let b = s.subsegment(0.375..1.0);
+                let a = match a { PathSeg::Line(mut l) => { l.p0 = s.start(); PathSeg::Line(l) } PathSeg::Quad(mut l) => { l.p0 = s.start(); PathSeg::Quad(l) } PathSeg::Cubic(mut l) => { l.p0 = s.start(); PathSeg::Cubic(l) } };
+                let b = match b { PathSeg::Line(mut l) => { l.p1 = s.end(); PathSeg::Line(l) } PathSeg::Quad(mut l) => { l.p2 = s.end(); PathSeg::Quad(l) } PathSeg::Cubic(mut l) => { l.p3 = s.end(); PathSeg::Cubic(l) } };
+                [a, b]
+            }));
+            Ok(format!("{} {} {} {} {}", bp.winding(q), rev.winding(q), tr.winding(a * q), raised.winding(q), split.winding(q)))
+        })(),
         _ => return None,
     })
 }
